@@ -20,6 +20,8 @@ type gor struct {
 	done   bool
 	desc   string
 	name   string
+	quiescing bool
+	qdepth    int
 }
 
 type sched struct {
@@ -32,6 +34,7 @@ type sched struct {
 	failV  *Violation
 	points int
 	log    []string
+	qseq   int
 }
 
 var schedDebug = os.Getenv("SYMGO_SCHEDLOG") != ""
@@ -160,18 +163,58 @@ func (s *sched) yield() {
 func (s *sched) quiesce() int {
 	g := s.cur
 	ctx := s.i.ctx
-	for {
-		cands := s.runnable(g)
-		if len(cands) == 0 {
-			break
+	// plain reports whether a non-quiescing goroutine other than x can run.
+	plain := func(x *gor) bool {
+		for _, h := range s.gs {
+			if h.done || h == x || h.quiescing {
+				continue
+			}
+			if h.ready == nil || h.ready() {
+				return true
+			}
+		}
+		return false
+	}
+	s.qseq++
+	g.qdepth = s.qseq
+	// others reports whether anything else can make progress before g should
+	// continue: a non-quiescing goroutine, or a goroutine that entered quiesce
+	// after g (nested) and whose own wait is over.
+	others := func() bool {
+		if plain(g) {
+			return true
+		}
+		for _, h := range s.gs {
+			if !h.done && h != g && h.quiescing && h.qdepth > g.qdepth && !plain(h) {
+				return true
+			}
+		}
+		return false
+	}
+	for others() {
+		var cands []*gor
+		for _, h := range s.gs {
+			if h.done || h == g {
+				continue
+			}
+			if h.quiescing {
+				if h.qdepth > g.qdepth && !plain(h) {
+					cands = append(cands, h)
+				}
+				continue
+			}
+			if h.ready == nil || h.ready() {
+				cands = append(cands, h)
+			}
 		}
 		s.points++
 		idx := ctx.choose(len(cands))
-		// g stays runnable (ready == nil) so control returns to it when others block
-		g.ready = func() bool { return len(s.runnable(g)) == 0 }
+		g.quiescing = true
+		g.ready = func() bool { return !others() }
 		g.desc = "quiesce"
 		s.switchTo(g, cands[idx])
 		g.ready = nil
+		g.quiescing = false
 	}
 	n := 0
 	for _, h := range s.gs {
